@@ -908,10 +908,14 @@ class Unit:
 
     def __rtruediv__(self, other: Any) -> Quantity:
         """other / self"""
+        # The resulting quantity may get quantized. Therefore we
+        # have to calculate the final amount before creating the result!
         if isinstance(other, Rational):
-            return other * self ** -1
+            amnt, unit = _amnt_and_unit_from_unit_pow(self, -1)
+            return (other * amnt) * unit
         if isinstance(other, Real):
-            return Decimal(other) * self ** -1
+            amnt, unit = _amnt_and_unit_from_unit_pow(self, -1)
+            return (Decimal(other) * amnt) * unit
         return NotImplemented
 
     def __pow__(self, exp: Any) -> Union[Quantity, Rational]:
@@ -1698,17 +1702,28 @@ class Quantity(metaclass=QuantityMeta):
 
     def __rtruediv__(self, other: Any) -> Quantity:
         """other / self"""
+        # The resulting quantity may get quantized. Therefore we
+        # have to calculate the final amount before creating the result!
         if isinstance(other, Rational):
-            return (other / self.amount) * self.unit ** -1
+            amnt, unit = _amnt_and_unit_from_unit_pow(self.unit, -1)
+            return (other / self.amount * amnt) * unit
         if isinstance(other, Real):
-            return (other / Decimal(self.amount)) * self.unit ** -1
+            amnt, unit = _amnt_and_unit_from_unit_pow(self.unit, -1)
+            return (Decimal(other) / self.amount * amnt) * unit
         return NotImplemented
 
     def __pow__(self, exp: int) -> Quantity:
         """self ** exp"""
         if not isinstance(exp, int):
             return NotImplemented
-        return self.amount ** exp * self.unit ** exp
+        if exp == 0:
+            return ONE
+        if exp == 1:
+            return self
+        # The resulting quantity may get quantized. Therefore we
+        # have to calculate the final amount before creating the result!
+        amnt, unit = _amnt_and_unit_from_unit_pow(self.unit, exp)
+        return (self.amount ** exp * amnt) * unit
 
     def __round__(self: Q, n_digits: int = 0) -> Q:
         """Return copy of `self` with its amount rounded to `n_digits`.
@@ -1772,6 +1787,17 @@ def _amnt_and_unit_from_term(term: UnitDefT) -> AmountUnitTupleT:
         else:
             raise
     return num, res_unit
+
+
+def _amnt_and_unit_from_unit_pow(unit: Unit, exp: int) \
+        -> Tuple[Rational, Unit]:
+    try:
+        amnt, res_unit = _amnt_and_unit_from_term(UnitDefT(((unit, exp),)))
+    except KeyError:
+        raise UndefinedResultError(operator.pow, unit.qty_cls.__name__,
+                                   exp) from None
+    assert res_unit is not None
+    return amnt, res_unit
 
 
 def _qty_from_term(term: UnitDefT) -> BinOpResT:
